@@ -3,6 +3,8 @@ package wasm
 import (
 	"errors"
 	"fmt"
+
+	"github.com/tetratelabs/wazero/sys"
 )
 
 // deleteModule makes the moduleName available for instantiation again.
@@ -67,6 +69,13 @@ func (s *Store) registerModule(m *ModuleInstance) error {
 
 	if s.nameToModule == nil {
 		return errors.New("already closed")
+	}
+
+	// The instance may have been closed already, through a reference its start function handed out: its
+	// Close found nothing to unregister, so registering it now would leave a closed module registered
+	// (and its name taken) for good.
+	if closed := m.Closed.Load(); closed != 0 {
+		return sys.NewExitError(uint32(closed >> 32))
 	}
 
 	if m.ModuleName != "" {
